@@ -4,4 +4,7 @@ import GoblVerif.Props.C02
 import GoblVerif.Props.C03
 import GoblVerif.Props.C04
 import GoblVerif.Props.C05
+import GoblVerif.Props.C12
 import GoblVerif.Props.C17
+import GoblVerif.Props.C18
+import GoblVerif.Props.C19
